@@ -156,11 +156,17 @@ struct BlendRowMaskClip;
 
 fn blend_row_mask_clip<T: blend::Blend>(src: &[u32], mask: &[u8], clip: &[u8], dst: &mut [u32]) {
     for (((dst, src), mask), clip) in dst.iter_mut().zip(src).zip(mask).zip(clip) {
-        *dst = alpha_lerp(
+        // alpha_lerp() never reaches a weight of 256, so a fully covered pixel
+        // inside a fully covering clip path would not become exactly blend(src, dst)
+        // (e.g. clear() under a clip path left 0xfe.. instead of 0xff..)
+        let alpha = muldiv255(*mask as u32, *clip as u32);
+        if alpha == 0 {
+            continue;
+        }
+        *dst = lerp(
             *dst,
             T::blend(*src, *dst),
-            *mask as u32,
-            *clip as u32
+            alpha_to_alpha256(alpha),
         );
     }
 }
